@@ -45,7 +45,10 @@ def check_log(obs, run, R):
         origins = []
         for c in cs:
             obj = outcome_obj(c)
-            if getattr(obj, 'key', None) != k:
+            crashed = isinstance(obj, B.BatchRaise) and any(
+                b['bid'] == obj.bid and b['raised'] is obj and any(kk == k for kk, _ in b['items'])
+                for b in obs.batches)     # the batch function itself raised: that exception is the outcome
+            if getattr(obj, 'key', None) != k and not crashed:
                 bad.append(('wrong_outcome', f'call#{c["i"]} key={k} got {c["out"]!r}'))
                 continue
             if not origins:
@@ -121,6 +124,8 @@ def run_case(item):
     st = Stats()
     nk = max(pat) + 1
     scripts = [{}] + [{k: 'exc'} for k in range(nk)]
+    if n <= 3:        # the batch function itself raises (before / after yielding for that key)
+        scripts += [{k: beh} for k in range(nk) for beh in ('raise_before', 'raise_after')]
     for gs in gapsets:
         for style in styles:
             ev = to_events(pat, gs, style)
@@ -145,7 +150,7 @@ def run_case(item):
             for nchain in (2, 3):
                 for extra_gap in (None, 0.0, BT + EPS):
                     ev = [(0.0, ('chain', 0, nchain))] + ([(extra_gap, ('call', 0))] if extra_gap is not None else [])
-                    for sc in ({}, {'0': 'exc'}):
+                    for sc in ({}, {'0': 'exc'}, {'0': 'raise_before'}):
                         obs, run = B.execute(aiu, ev, cfg, sc)
                         st.executions += 1
                         st.transitions += len(obs.calls) + len(obs.batches)
@@ -204,7 +209,8 @@ def main(tier):
     return common.finish(
         PID, tier, total, t0,
         rule=(f'all timed sequences of 1..{nmax} calls over repeating keys, gaps on a grid around batch_timeout, '
-              'retention_timeout and the answer instant, retention in {0, 0.5, 4}, value/exception outcomes, '
+              'retention_timeout and the answer instant, retention in {0, 0.5, 4}, value / yielded-exception / '
+              'batch-function-raises outcomes, '
               'default and explicit keys; each call classified as sharer/origin from virtual arrival vs answer '
               'time and checked by object identity and batch id; exact ties are not judged'),
         assumptions=['virtual clock', 'no caller cancelled (C09)'])
